@@ -669,15 +669,19 @@ pub fn check(o: &CheckOpts) -> i32 {
         if m.data_race || m.mismatch {
             raw_violations += 1;
             let kind = if m.data_race { "data_race" } else { "miri_result_mismatch" };
-            let seed0 = m.failing_seeds.first().copied().unwrap_or(0);
+            let n0 = m.calls;
+            let (calls_text, threads_min, failing_min, excerpt_min, tried) =
+                crate::miri::minimise_miri(&o.verif, &m, Duration::from_secs(if t.name == "thorough" { 420 } else { 100 }));
+            println!("  miri finding minimised from {} to {} calls on {} threads ({} candidates)", n0, calls_text.lines().count(), threads_min, tried);
+            let seed0 = failing_min.first().copied().unwrap_or(0);
             let dir = format!("{}/replays", o.verif);
             let _ = std::fs::create_dir_all(&dir);
             let path = format!("{}/C16-{}-miri-{}.json", dir, o.seed, seed0);
             let v = json!({
                 "property": "C16", "seed": o.seed, "tier": t.name,
-                "miri": {"miri_seed": seed0, "failing_seeds": m.failing_seeds, "threads": m.threads, "calls_text": m.calls_text,
+                "miri": {"miri_seed": seed0, "failing_seeds": failing_min, "threads": threads_min, "calls_text": calls_text,
                          "flags": "-Zmiri-disable-isolation -Zmiri-deterministic-floats -Zmiri-preemption-rate=0.1 -Zmiri-seed=<miri_seed>"},
-                "violation": {"kind": kind, "detail": m.excerpt},
+                "violation": {"kind": kind, "detail": excerpt_min},
                 "format": "sc_sim replay v1 (miri): every thread evaluates the calls of calls_text (lines ev<TAB>placeholder<TAB>expr), thread t starting at offset t*n/threads; re-run under Miri with the given seed",
             });
             let _ = std::fs::write(&path, serde_json::to_string_pretty(&v).unwrap_or_default());
